@@ -55,18 +55,18 @@ func derive(id uint64, salt byte, n int) []byte {
 type rpcCall struct {
 	id        uint64
 	behaviour int
-	k         int // stream length
-	size      int // payload size
+	k         int  // stream length
+	size      int  // payload size
 	fail      bool // streaming calls: the handler ends with an application-defined status after streaming
 }
 
 // expected outcome of a call, computed by the harness from the same function the handler uses
 type rpcExpect struct {
-	code    status.Code
-	message string
-	result  []byte // spec-encoded value, nil = no result
-	ok      bool   // OK expected
-	anyNonOK bool  // panic: any non-OK status is acceptable
+	code     status.Code
+	message  string
+	result   []byte // spec-encoded value, nil = no result
+	ok       bool   // OK expected
+	anyNonOK bool   // panic: any non-OK status is acceptable
 }
 
 func resultValue(c rpcCall) []byte {
@@ -175,12 +175,12 @@ func buildRequest(c rpcCall) (prpc.Request, *rpc.Request, status.Status) {
 
 // rpcServerSide is the deterministic handler plus its invocation log.
 type rpcServerSide struct {
-	invoked  sync.Map // id -> *atomic.Int32
-	bad      atomic.Int64
-	badDesc  atomic.Pointer[string]
-	enter    atomic.Int64
-	exit     atomic.Int64
-	blockCh  chan struct{} // optional: handlers of behaviour bLate wait on it (fault checks)
+	invoked sync.Map // id -> *atomic.Int32
+	bad     atomic.Int64
+	badDesc atomic.Pointer[string]
+	enter   atomic.Int64
+	exit    atomic.Int64
+	blockCh chan struct{} // optional: handlers of behaviour bLate wait on it (fault checks)
 }
 
 func (s *rpcServerSide) count(id uint64) int32 {
